@@ -21,6 +21,7 @@ use crate::report::{hash_of, Args, Report};
 
 const PREFACE: &[u8] = b"PRI * HTTP/2.0\r\n\r\nSM\r\n\r\n";
 
+const RULE18: &str = "sniffing path (ReadVersion + Rewind inside the auto-detecting server connection): fragmented client byte streams with and without Pending between chunks; the requests seen by the protocol handler and the response bytes must equal those of an unfragmented plain hyper connection (no byte lost, duplicated or invented on the way through the sniffer); non-trivial = at least one cut inside the first 24 bytes";
 const RULE: &str = "byte streams {valid HTTP/1.1 requests (short, long headers, with body, pipelined), captured hyper HTTP/2 client sessions, every strict prefix of the preface followed by EOF, every prefix followed by a diverging byte, request lines sharing a prefix with the preface} x chunkings of the first 32 bytes {every single cut, every pair of cuts, one byte at a time, all compositions of the first 8 bytes, random compositions} x {with, without Pending between chunks}; real auto::Builder connection vs unfragmented plain hyper http1/http2 connection with the same service: served protocol, handler view of every request, response bytes (Date masked; HTTP/2 compared frame by frame); non-trivial = chunking with >= 2 chunks inside the first 24 bytes; distinct by (stream, chunking, pending)";
 
 // ---------------------------------------------------------------------------------------------
@@ -482,7 +483,10 @@ pub fn run(args: &Args) -> Report {
             let s = &sr[*si];
             let want = refs.entry(*si).or_insert_with(|| rt.block_on(run_reference(&s.data, s.eof))).clone();
             let got = rt.block_on(run_auto(&s.data, cuts.clone(), *pending, s.eof));
-            let p = r.prop("C08", RULE);
+            // asked for C18: the same runs, judged only for byte integrity between the client and the protocol handler
+            // (ReadVersion + Rewind are stream adapters); which protocol is detected is C08's business
+            let for_c18 = args.wants("C18") && !args.wants("C08");
+            let p = if for_c18 { r.prop("C18", RULE18) } else { r.prop("C08", RULE) };
             let inside: usize = {
                 let mut acc = 0;
                 let mut n = 0;
@@ -501,13 +505,23 @@ pub fn run(args: &Args) -> Report {
             }
             p.count(&format!("served_{}", classify(&got.out)), 1);
             for (sig, msg) in compare(s, cuts, *pending, &got, &want) {
-                p.violation(sig, msg, json!({"engine": "sniff", "stream": s.name, "cuts": cuts, "pending": pending}));
+                if for_c18 {
+                    if sig.starts_with("handler-view-differs") || sig.starts_with("response-bytes-differ") || sig.starts_with("response-frames-differ") {
+                        p.violation(format!("sniffing-path:{sig}"), msg, json!({"engine": "sniff", "stream": s.name, "cuts": cuts, "pending": pending}));
+                    }
+                } else {
+                    p.violation(sig, msg, json!({"engine": "sniff", "stream": s.name, "cuts": cuts, "pending": pending}));
+                }
             }
             if p.samples.len() < 4 && inside >= 2 && s.name.starts_with("h2-session") {
                 p.sample(json!({"stream": s.name, "stream_len": s.data.len(), "cuts": cuts, "pending_between": pending, "served": classify(&got.out), "handler_saw": got.seen.iter().map(|x| format!("{} {} {} body={}B", x.method, x.uri, x.version, x.body.len())).collect::<Vec<_>>()}));
             }
         }
     });
+    if let Some(p) = rep.props.get_mut("C18") {
+        p.exhaustive = Some(false);
+        p.assume("reference = plain hyper http1/http2 server connection fed the same bytes in one read");
+    }
     if let Some(p) = rep.props.get_mut("C08") {
         p.exhaustive = Some(false);
         p.assume("reference = plain hyper http1/http2 server connection fed the same bytes in one read; Date header values are masked, HTTP/2 output compared by frame header and DATA payload");
